@@ -1180,7 +1180,7 @@ func (r *Run) checkPresenceTable(P string) {
 			got := false
 			switch {
 			case ret != nil:
-				if c, ok := core.RetOp(ret, 0).(*ssa.Call); ok {
+				if c, ok := ev.ret(ret, 0).(*ssa.Call); ok {
 					if sc := c.Common().StaticCallee(); sc != nil && (sc.String() == "errors.New" || sc.String() == "fmt.Errorf" || strings.HasSuffix(sc.String(), "errors.New") || strings.HasSuffix(sc.String(), "errors.Errorf")) {
 						got = true
 					}
